@@ -27,15 +27,20 @@ def run_config(cfg_name, module, *, use_cache=True, **kw):
     cdir = os.path.join(tlc.VERIF, ".cache")
     path = os.path.join(cdir, "%s-%s.json" % (cfg_name, _key(cfg_name)))
     if use_cache and os.path.exists(path):
-        with open(path) as fh:
-            res = json.load(fh)
-        res["cached"] = True
-        return res
+        try:
+            with open(path) as fh:
+                res = json.load(fh)
+            res["cached"] = True
+            return res
+        except ValueError:
+            pass  # unreadable cache entry: recompute
     res = _run_config(cfg_name, module, **kw)
     res["cached"] = False
     os.makedirs(cdir, exist_ok=True)
-    with open(path, "w") as fh:
+    tmp = "%s.%d.tmp" % (path, os.getpid())
+    with open(tmp, "w") as fh:
         json.dump(res, fh)
+    os.replace(tmp, path)  # atomic: concurrent check runs may share the cache
     return res
 
 
